@@ -558,7 +558,9 @@ def handle (j : Json) : Except String Verdict := do
           | .error _ =>
             let ia := annOfImpl (get o "err")
             if !model.ann.isEmpty && ia != model.ann && agreeSig == "" then
-              agreeSig := s!"C19/top-model/{form}/{n}/ann"
+              -- (the data type the MODEL blames is part of the signature, as in the build / hist suites: the known finding
+              -- C18-dict-value-child-path — the crate names the dictionary's value / key child — is recorded per mechanism)
+              agreeSig := s!"C19/top-model/{form}/{n}/ann/{(model.ann.lookup "data_type").getD "-"}"
               agreeWhy := s!"top-level {form} through {n}: annotations: model {repr model.ann}, implementation {repr ia}"
   -- ---- USE AFTER A FAILED OPERATION: one builder per finisher, the rows pushed one by one with a record the builder
   -- refuses in the middle, a build, another push, another build; every outcome recorded (`fail_hist`).
